@@ -92,7 +92,22 @@ fn base_trees() -> Vec<Tree> {
     t2.insert("a b".into(), Node::dir(T0 + 410));
     t2.insert("a b/f".into(), Node::file(b"inner", T0 + 411));
     t2.insert("~".into(), Node::symlink("a", T0 + 412));
-    vec![t1, t2]
+    // Sibling directories whose names extend one another with a character that sorts below '/'
+    // ('.', '-', ' '), the shorter one holding a nested directory: byte order of whole paths, of
+    // directory strings and the documented order all differ here, so a merge of two listings that
+    // are ordered differently loses its alignment.
+    let mut t3 = empty_tree();
+    for (i, d) in ["a", "a.old", "a-x", "a b"].iter().enumerate() {
+        t3.insert(d.to_string(), Node::dir(T0 + 420 + i as i64));
+        t3.insert(format!("{d}/f{i}"), Node::file(format!("in {d}").as_bytes(), T0 + 430 + i as i64));
+    }
+    t3.insert("a/sub".into(), Node::dir(T0 + 440));
+    t3.insert("a/sub/g".into(), Node::file(b"deep", T0 + 441));
+    t3.insert("a/sub/deeper".into(), Node::dir(T0 + 442));
+    t3.insert("a/sub/deeper/h".into(), Node::file(b"deeper", T0 + 443));
+    t3.insert("b".into(), Node::file(b"bee", T0 + 444));
+    t3.insert("z".into(), Node::symlink("a", T0 + 445));
+    vec![t1, t2, t3]
 }
 
 const N_MUT: usize = 20;
@@ -381,7 +396,7 @@ pub fn run(report: &Report, budget: &Budget) {
     report.set("transitions", json!(n.load(AO::Relaxed) * 5));
     report.set("traces_validated_against_impl", json!(n.load(AO::Relaxed) * 5));
     report.set("exhaustive", json!(done == total));
-    report.set("explanation", json!("two base trees x every set of at most N mutations from a menu of 20 (content, size-only, mtime-only, chmod, chown, kind swaps, additions, removals, retargeted link): diff with and without include_unchanged and the next backup's change callback are compared with the difference of the two tree models"));
+    report.set("explanation", json!("three base trees x every set of at most N mutations from a menu of 20 (content, size-only, mtime-only, chmod, chown, kind swaps, additions, removals, retargeted link): diff with and without include_unchanged and the next backup's change callback are compared with the difference of the two tree models"));
     report.assume("the change callback is compared on regular files only; kind swaps are left out of that comparison, as the callback is only defined for files");
     report.assume("directory mtimes are not a change (as the implementation documents)");
 }
